@@ -4,6 +4,7 @@ CONSTANTS
   MaxB = 6
   MaxUser = 30
   Monitor = FALSE
+  UserCancels = FALSE
   Log = TRUE
   FaultKinds = {}
   MaxFaults = 0
